@@ -21,7 +21,7 @@ RULE = ('memory-stress templates (VLAs of int/byte/bool/string with lengths -327
         'literals whose elements call allocating functions; recursion with local arrays; every write routine with arrays at the top '
         'of the array region; by-reference mutation) + random "memory" profile and time-travel programs; each swept over stack sizes '
         'S*-6..S*+6 (S* = smallest stack reproducing the generous outcome, by binary search) and a ladder; a case is one '
-        '(program, args, word, stack); non-trivial = the run ended in stack_overflow or ran at a stack within 6 words of S*; the 448 value-capture idioms of gen/idioms.py (an index read before a call that moves it out of range) and the 319 entry-point signatures (array parameter before/between/after scalars) run under M-SAN at a generous stack; '
+        '(program, args, word, stack); non-trivial = the run ended in stack_overflow or ran at a stack within 6 words of S*; the 448 value-capture idioms of gen/idioms.py (an index read before a call that moves it out of range) and the 319 entry-point signatures (array parameter before/between/after scalars) run under M-SAN at a generous stack; the scale grids of gen/scale.py (up to 257 locals, 65 parameters, 1000 elements, depth 10) under M-SAN, the largest frames swept around S*; '
         'distinct by hash of (source, args, word, stack)')
 ASSUMPTIONS = common.ISA_ASSUMPTIONS[:3] + [
     'the stack size only enters the output through the `.zero <n>w` line (asserted on every S* by recompiling)',
@@ -45,6 +45,7 @@ def plan(tier, seed):
             specs.append({'kind': 'gen', 'seed': s, 'count': 12, 'words': [2, 3, 4]})
     parts = 4 if tier == 'quick' else 12
     specs += [{'kind': 'idioms', 'part': i, 'parts': parts, 'tier': tier} for i in range(parts)]
+    specs += [{'kind': 'scale', 'part': i, 'parts': 8, 'tier': tier} for i in range(8)]
     return specs
 
 
@@ -180,8 +181,26 @@ def observe(res, src, args, word, tag):
         res['nontrivial'].append(runner.case_id(src, args, word, 'idiom'))
 
 
+SCALE_SWEEPS = ('scale-locals/flat/33', 'scale-locals/flat/129', 'scale-locals/flat/257', 'scale-locals/recursive/33', 'scale-locals/nested/65', 'scale-params/plain/9',
+                'scale-params/plain/33', 'scale-params/plain/65', 'scale-depth/return/literal/6', 'scale-depth/break/dynamic/8', 'scale-array/dynamic/bool/257',
+                'scale-array/literal/int/129', 'scale-labels/one/11')
+
+
 def run_shard(spec):
     res = runner.new_result()
+    if spec['kind'] == 'scale':
+        # scale grids: frames of up to 257 locals, 65 parameters, arrays of up to 1000 elements, depth 10 - every access inside its own
+        # object (M-SAN, generous stack, word sizes in rotation); the frame estimate of the largest ones is swept around S*
+        for k, tag, prog, argsets in common.scale_items(('locals', 'params', 'array', 'nesting', 'globals')):
+            if k % spec['parts'] != spec['part']:
+                continue
+            j = k // spec['parts']
+            for word in (((2, 3, 4, 8)[j % 4],) if spec['tier'] == 'quick' else (2, 3, 4, 8)):
+                common.check_scale(res, prog, argsets[j % len(argsets)], word, tag, monitors=('san',))
+            if tag in SCALE_SWEEPS:
+                for word in ((2, 8) if spec['tier'] == 'quick' else (2, 3, 4, 8)):
+                    sweep(res, A.render(prog), argsets[0], word, tag, False)
+        return res
     if spec['kind'] == 'idioms':
         from ..gen import idioms
         for k, (tag, prog) in enumerate(idioms.capture_programs()):
